@@ -245,7 +245,7 @@ sys.exit(1 if accepted != want else 0)
 """
 
 
-@unit("info-table.annotation", ["C11"], [TR + ":PteraTransformer.make_interaction", TR + ":PteraTransformer.visit_AnnAssign", TR + ":PteraTransformer._record_annotation"],
+@unit("info-table.annotation", ["C11", "C16", "C02"], [TR + ":PteraTransformer.make_interaction", TR + ":PteraTransformer.visit_AnnAssign", TR + ":PteraTransformer._record_annotation"],
       replay=_replay_info, mode="bounded", bound="tag universe {A, B, C, D}; previous table entry in {none, A, B, A&B, B&C, non-tag}; one binding statement of 9 kinds, instrumented or not",
       assumed=["_evaluate(annotation) is the annotation's value (contract); the table entry is what transform() copies into __ptera_info__ (transform-orchestration unit)"])
 def u_info_table(c):
